@@ -197,6 +197,25 @@ def run(ctx, rep):
         bad = [u[2] for u in dims["uses"] if "char" in u[3]]
         return not bad, "byte/char dimension typing holds" if not bad else "character counts used as byte offsets: %r" % bad
 
+    roots = ["validation::check_container", "diagnostic::expected_token_str"] + [c for c in facts.closures_of("validation::check_methods")]
+
+    def dominated_by(fn):
+        """a covered root R such that every call path from the entry points to fn passes through R"""
+        if fn in roots:
+            return None
+        for r in roots:
+            seen = set()
+            st = [e for e in ENTRIES if e != r] + [a for a in user_acts]
+            while st:
+                n = st.pop()
+                if n in seen or n == r:
+                    continue
+                seen.add(n)
+                st.extend(x for x in g.get(n, ()) if x in facts.fns and x not in seen)
+            if fn not in seen and fn in reach:
+                return r
+        return None
+
     n_disch = 0
     for s in ss:
         fn, kind = s["fn"], s["kind"]
@@ -221,6 +240,11 @@ def run(ctx, rep):
         elif (fn, kind, s["ordinal"]) in REVIEWED:
             okj, whyj = once("j1", j1)
             rule, ok, why = "D8", okj, "reviewed: " + REVIEWED[(fn, kind, s["ordinal"])] + ("" if okj else " - BUT " + whyj)
+        elif dominated_by(fn) is not None:
+            # a helper extracted from a covered function: the tabulation of that function inlines it
+            root = dominated_by(fn)
+            rule, (ok, why) = {"validation::check_container": ("D4", once("d4", d4)), "diagnostic::expected_token_str": ("D3", once("d3", d3_ets))}.get(root, ("D7", once("d7", d7)))
+            why = "only reachable through %s, whose tabulation inlines it: %s" % (root, why)
         else:
             rep.fail("A8", key, s["where"], "potential panic (%s %s) in %s is neither discharged by a rule nor a reviewed entry: an input reaching it would abort parsing / validation" % (kind, s["detail"], fn))
             continue
